@@ -3,6 +3,7 @@ Compiler correctness, part 5: the simulation proper — by induction over the tr
 node delivers, in order and on demand, exactly the successes the specification lists for the node's pattern.
 -/
 import RegexVerif.Lemmas.CompileStep
+import RegexVerif.Lemmas.CompileLoop
 
 namespace RegexVerif.Compile
 open RegexVerif.VM RegexVerif.Code RegexVerif.Writer RegexVerif.Generated.Opcodes RegexVerif RegexVerif.Spec
@@ -19,6 +20,8 @@ structure World where
   hstr : X.p.strings = fin.strings.toArray
   hnsets : X.p.nsets = fin.sets.length
   hsl : ∀ g : Nat, X.sl g = (mapCapnum ⟨caps, none⟩ (g : Int)).toNat
+  /-- the text is shorter than the "unbounded" repeat count `MaxInt32` -/
+  hlen : X.se.n ≤ 2147483647
 
 def World.cfg (W : World) : Cfg := ⟨W.caps, none⟩
 
@@ -31,10 +34,6 @@ theorem flatMap_singleton_id {α : Type} (l : List α) : l.flatMap (fun x => [x]
   induction l with
   | nil => rfl
   | cons x xs ih => simp [ih]
-
-theorem Delivers.cast {X : Setup} {b b' : Nat} {T S S' : List Int} {C0 : List (Nat × Nat × Nat)} {rs rs' : List St}
-    {s : VMState} (h : Delivers X b T S S' C0 rs s) (hb : b = b') (hr : rs = rs') : Delivers X b' T S S' C0 rs' s := by
-  subst hb; subst hr; exact h
 
 theorem emitAlt_cons_cons (cfg : Cfg) (a fin : Nat) (tb : Tables) (c d : GoNode) (ds : List GoNode) :
     emitAlt cfg a fin tb (c :: d :: ds) =
@@ -50,7 +49,7 @@ theorem sizeAlt_cons_cons (cfg : Cfg) (c d : GoNode) (ds : List GoNode) :
   simp
 
 /-- the highest tier the simulation lemma covers so far -/
-def maxTier : Nat := 1
+def maxTier : Nat := 2
 
 section main
 variable (W : World)
@@ -198,10 +197,56 @@ theorem node_delivers : ∀ (n : GoNode) (a : Nat) (tb : Tables) (pat : Pat),
       exact multi_delivers W.hrel hwf.1 he hia hget hf
     · cases hp
   | .ref rtl ci g, a, tb, pat, ht, _, _, _, _, _, _, i, T, S, C, s, _, _, _ => by simp [tier, maxTier] at ht
-  | .charloop t rtl ci ch lo hi, a, tb, pat, ht, _, _, _, _, _, _, i, T, S, C, s, _, _, _ => by
-    simp [tier, maxTier] at ht
-  | .setloop t rtl ci pl lo hi, a, tb, pat, ht, _, _, _, _, _, _, i, T, S, C, s, _, _, _ => by
-    simp [tier, maxTier] at ht
+  | .charloop t rtl ci ch lo hi, a, tb, pat, _, hp, hok, _, hbd, hcode, _, i, T, S, C, s, hwf, _, he => by
+    simp only [toPat] at hp
+    simp only [emitNode] at hcode
+    split at hp
+    · next hc =>
+      simp only [Bool.and_eq_true, beq_iff_eq, decide_eq_true_eq, List.contains_iff_mem] at hc
+      obtain ⟨⟨hr, hch⟩, hty⟩ := hc
+      subst hr
+      cases hp
+      simp only [boundsOk, Bool.and_eq_true, decide_eq_true_eq] at hbd
+      obtain ⟨⟨⟨_, h0⟩, hmn⟩, hn⟩ := hbd
+      simp only [size]
+      rcases charloop_families t hty with ⟨h1, h2, h3⟩ | ⟨h1, h2, h3⟩
+      · simp only [h1, if_true] at hcode
+        simp only [h3, Bool.false_eq_true, if_false]
+        exact loopnode_delivers W.hrel W.hlen hwf.1 he (List.mem_append_left _ hty) h2.symm (Or.inl ⟨rfl, rfl⟩) h0 hmn hn
+          hcode (fun _ => predOk_one W.X ch hch)
+      · simp only [h1, Bool.false_eq_true, if_false] at hcode
+        simp only [h3, if_true]
+        exact loopnode_delivers W.hrel W.hlen hwf.1 he (List.mem_append_left _ hty) h2.symm (Or.inr (Or.inl ⟨rfl, rfl⟩)) h0 hmn
+          hn hcode (fun _ => predOk_notone W.X ch hch)
+    · cases hp
+  | .setloop t rtl ci pl lo hi, a, tb, pat, _, hp, hok, _, hbd, hcode, hext, i, T, S, C, s, hwf, _, he => by
+    simp only [toPat] at hp
+    simp only [emitNode, setKey_eq] at hcode hext
+    split at hp
+    · next hc =>
+      simp only [Bool.and_eq_true, beq_iff_eq, Bool.not_eq_true', List.contains_iff_mem] at hc
+      obtain ⟨⟨hr, hci⟩, hty⟩ := hc
+      subst hr; subst hci
+      cases hrd : W.TPx.rd pl with
+      | none => rw [hrd] at hp; cases hp
+      | some cls =>
+        rw [hrd] at hp
+        simp only [Option.map_some, Option.some.injEq] at hp
+        subst hp
+        simp only [boundsOk, Bool.and_eq_true, decide_eq_true_eq] at hbd
+        obtain ⟨⟨h0, hmn⟩, hn⟩ := hbd
+        simp only [size]
+        refine loopnode_delivers W.hrel W.hlen hwf.1 he (List.mem_append_right _ hty) (setloop_family t hty).symm
+          (Or.inr (Or.inr ⟨rfl, rfl⟩)) h0 hmn hn hcode (fun hne => ?_)
+        have hcond : (decide (lo > 0) || decide (hi > lo)) = true := by
+          rcases hne with h | h <;> simp [h]
+        rw [if_pos hcond] at hext
+        have hget : W.fin.sets[(internKey id tb.sets pl).1]? = some pl := by
+          obtain ⟨e, he'⟩ := hext.2
+          rw [he']
+          exact get_of_ext (internKey_get tb.sets pl)
+        exact predOk_set W.hrel W.hnsets hget hrd
+    · cases hp
   | .concat cs, a, tb, pat, ht, hp, hok, hcaps, hbd, hcode, hext, i, T, S, C, s, hwf, hT, he => by
     simp only [toPat] at hp
     cases hps : toPatList W.TPx false cs with
